@@ -224,4 +224,38 @@ CHECKS = {
              "UTC-offset change or on the first/last day of a year",
         technique="property-based testing with arithmetic oracles",
     ),
+    "C21": dict(
+        test="TestC21", level="exploration", shards=16,
+        tiers=dict(quick=dict(checks=300, timeout=600), thorough=dict(checks=30000, timeout=3000)),
+        rule="rapid row sets (1-500 rows over 1-20 windows, shuffled, ns offsets incl. window edges, prices incl. "
+             "negative/MaxFloat32/Inf/ties, integer volumes) x candle timeframes 1Sec..1D incl. non-divisors of a day "
+             "(90Sec, 7Min) through AggRunner.Run with TickCandler(tf, Price, Sum::V, Avg::V) or CandleCandler(tf, "
+             "Open, High, Low, Close, Sum::Volume); oracle: independent grouping by window start, one candle per "
+             "non-empty window in time order, open/close from an earliest/a latest row, extremes, exact sums/averages; "
+             "for distinct timestamps OHLC invariant under a drawn permutation; non-trivial = >=2 windows and a window "
+             "with >=3 rows out of time order",
+        assumptions=["configured zone UTC (D candles = UTC calendar days)", "no NaN prices (extremes undefined)"],
+        technique="property-based testing against a reference implementation + metamorphic permutation",
+    ),
+    "C22": dict(
+        test="TestC22", level="exploration", shards=16,
+        tiers=dict(quick=dict(checks=200, timeout=600), thorough=dict(checks=20000, timeout=3000)),
+        rule="rapid row sets (as C21; equal timestamps carry equal prices) x every ordered pair (fine, coarse) of candle "
+             "timeframes 1Sec..1D with fine | coarse; oracle (metamorphic): OHLC of CandleCandler(coarse) applied to "
+             "TickCandler(fine) == OHLC of TickCandler(coarse) on the rows; non-trivial = a coarse window containing >=2 "
+             "non-empty fine windows",
+        assumptions=["configured zone UTC"],
+        technique="metamorphic property-based testing",
+    ),
+    "C23": dict(
+        test="TestC23", level="exploration", shards=16,
+        tiers=dict(quick=dict(checks=400, timeout=600), thorough=dict(checks=50000, timeout=3000)),
+        rule="rapid columns of every numeric wire type (length 0-1000, raw bit patterns / float classes) through "
+             "AggRunner.Run count(V)/min(V)/max(V)/avg(V), and epoch sequences with steps equal to, just below, just "
+             "above and random around the threshold through gap('tf'); oracle: naive computation over float32(v) (avg in "
+             "float64 with n*1e-12 relative tolerance), gaps == consecutive pairs with difference > threshold; for n=0 "
+             "only count and absence of a panic; non-trivial = n>=2 with the extreme not in first position / >=1 gap and "
+             ">=1 non-gap",
+        technique="property-based testing against a naive reference",
+    ),
 }
